@@ -294,6 +294,8 @@ class TlSchemas:
                     if 'vector' in type_:
                         length = int.from_bytes(data[i:i + 4], 'little', signed=False)
                         i += 4
+                        if length > len(data) - i:
+                            raise TlError('Wrong vector length')
                         result[field] = []
                         for _ in range(length):
                             if subtype in self.base_types:
